@@ -56,20 +56,37 @@ Path Path::directory() const
 
 Path& Path::removeDDots()
 {
+	if (!_path.ok())
+		return *this;
 	Array<String> parts = _path.split('/');
 	bool unc = _path.startsWith("//");
+	bool rooted = parts.length() > 1 && (parts[0] == "" || parts[0].endsWith(':')); // "/..." or "c:/..."
+	int first = rooted ? 1 : 0; // the root is not a directory that ".." can step out of
 	for (int i = 1; i < parts.length(); i++)
 		if (parts[i] == "" || parts[i] == ".")
 			parts.remove(i--);
 
-	for(int i=1; i<parts.length(); i++)
+	if (!rooted && parts.length() > 1 && parts[0] == ".")
+		parts.remove(0);
+
+	for (int i = first; i < parts.length(); i++)
 	{
-		if(parts[i]=="..") {
-			parts.remove(i > 1? i-1 : i, i > 1 ? 2 : 1);
-			i-=2;
+		if (parts[i] != "..")
+			continue;
+		if (i > first && parts[i - 1] != "..") // steps out of the directory before it
+		{
+			parts.remove(i - 1, 2);
+			i -= 2;
 		}
+		else if (rooted) // the root is its own parent
+			parts.remove(i--);
 	}
 	_path = parts.join('/');
+
+	if (rooted && parts.length() == 1) // nothing but the root is left
+		_path << '/';
+	else if (!rooted && parts.length() == 0) // e.g. "a/..": the directory the path is relative to
+		_path = ".";
 
 	if (unc)
 		_path = "/" + _path;
